@@ -552,17 +552,25 @@ fn bool_contexts(b: &E, full: bool, out: &mut Vec<E>) {
 }
 
 /// Contexts around a non-boolean value `x` of type `t`.
-fn value_contexts(x: &E, t: Ty, out: &mut Vec<E>) {
+/// `full` = every literal of the type and a column as the other operand, all
+/// operators in both operand orders; otherwise (quick tier, around depth-1
+/// trees) a reduced menu: NULL and two literals, mirrored only for = < >=.
+fn value_contexts(x: &E, t: Ty, full: bool, out: &mut Vec<E>) {
     let mut cmp_leaves: Vec<E> = lits_of(t);
-    if let Some(c) = cols_of(t).first() {
-        cmp_leaves.push(c.clone());
+    if full {
+        if let Some(c) = cols_of(t).first() {
+            cmp_leaves.push(c.clone());
+        }
+    } else {
+        cmp_leaves.truncate(3);
     }
+    let mirrored: &[Op] = if full { &CMP6 } else { &[Op::Eq, Op::Lt, Op::Ge] };
     for l in &cmp_leaves {
         for op in CMP8 {
             out.push(bin(x.clone(), op, l.clone()));
         }
-        for op in CMP6 {
-            out.push(bin(l.clone(), op, x.clone()));
+        for op in mirrored {
+            out.push(bin(l.clone(), *op, x.clone()));
         }
     }
     out.push(bin(x.clone(), Op::Eq, nullu()));
@@ -591,14 +599,19 @@ fn value_contexts(x: &E, t: Ty, out: &mut Vec<E>) {
             continue;
         }
         out.push(cast(x.clone(), to));
-        out.push(try_cast(x.clone(), to));
+        if full || matches!(to, Ty::I32 | Ty::Str) {
+            out.push(try_cast(x.clone(), to));
+        }
     }
     if t.is_num() {
-        let alits: Vec<E> = match t {
-            Ty::I64 => vec![li(0), li(1), li(2), lnull(Ty::I64)],
+        let mut alits: Vec<E> = match t {
+            Ty::I64 => vec![li(0), li(1), lnull(Ty::I64), li(2)],
             Ty::I32 => vec![li32(1), li32(0)],
-            _ => vec![lf(0.0), lf(1.0), lf(1.5), lnull(Ty::F64)],
+            _ => vec![lf(0.0), lf(1.0), lnull(Ty::F64), lf(1.5)],
         };
+        if !full {
+            alits.truncate(3);
+        }
         let mut ops: Vec<Op> = ARITH.to_vec();
         if t.is_int() {
             ops.extend(BITS);
@@ -628,8 +641,8 @@ fn value_contexts(x: &E, t: Ty, out: &mut Vec<E>) {
         out.push(fun(Fun::Abs, vec![x.clone()]));
     }
     if t == Ty::Str {
-        for p in LIKE_PATS {
-            out.push(like(x.clone(), like_pat(p), false, false));
+        for p in LIKE_PATS.iter().take(if full { LIKE_PATS.len() } else { 6 }) {
+            out.push(like(x.clone(), like_pat(*p), false, false));
         }
         out.push(like(x.clone(), ls("a%"), true, false));
         out.push(like(x.clone(), ls("a%"), false, true));
@@ -646,10 +659,17 @@ fn value_contexts(x: &E, t: Ty, out: &mut Vec<E>) {
 }
 
 fn dedup(v: Vec<E>) -> Vec<E> {
-    let mut seen: HashSet<E> = HashSet::new();
-    let mut out = vec![];
+    // 128-bit structural fingerprints (two independent 64-bit hashes) instead of cloned trees
+    use std::hash::{Hash, Hasher};
+    let mut seen: HashSet<(u64, u64)> = HashSet::with_capacity(v.len());
+    let mut out = Vec::with_capacity(v.len());
     for e in v {
-        if seen.insert(e.clone()) {
+        let mut h1 = std::collections::hash_map::DefaultHasher::new();
+        e.hash(&mut h1);
+        let mut h2 = std::collections::hash_map::DefaultHasher::new();
+        0x9e3779b97f4a7c15u64.hash(&mut h2);
+        e.hash(&mut h2);
+        if seen.insert((h1.finish(), h2.finish())) {
             out.push(e);
         }
     }
@@ -658,6 +678,8 @@ fn dedup(v: Vec<E>) -> Vec<E> {
 
 pub struct Space {
     pub exprs: Vec<E>,
+    /// thorough tier: depth-2 predicates around which `d3_contexts` builds the depth-3 trees
+    pub d3_seeds: Vec<E>,
     pub description: serde_json::Value,
 }
 
@@ -677,6 +699,21 @@ pub fn space(thorough: bool) -> Space {
         all.extend(v.iter().cloned());
         d1.push((t, v));
     }
+    // contexts directly around the columns (`p OR NOT p`, `-n & n`, `a = a`, ...)
+    {
+        let mut out = vec![];
+        for t in ALL_TY {
+            for c in cols_of(t) {
+                if t == Ty::Bool {
+                    bool_contexts(&c, true, &mut out);
+                } else {
+                    value_contexts(&c, t, true, &mut out);
+                }
+            }
+        }
+        counts.insert("contexts_of_columns".into(), serde_json::json!(out.len()));
+        all.extend(out);
+    }
     // depth 2
     let mut d2_bool: Vec<E> = vec![];
     for (t, v) in &d1 {
@@ -685,7 +722,7 @@ pub fn space(thorough: bool) -> Space {
             if *t == Ty::Bool {
                 bool_contexts(x, true, &mut out);
             } else {
-                value_contexts(x, *t, &mut out);
+                value_contexts(x, *t, thorough, &mut out);
             }
         }
         counts.insert(format!("depth2_contexts_of_{t:?}"), serde_json::json!(out.len()));
@@ -721,16 +758,13 @@ pub fn space(thorough: bool) -> Space {
         d2_bool.extend(pairs.iter().filter(|e| is_bool_shaped(e)).cloned());
     }
     all.extend(pairs);
-    // depth 3 (thorough): reduced contexts around every depth-2 predicate,
-    // and core x (AND/OR pair of core) triples
+    // depth 3 (thorough): reduced contexts around every depth-2 predicate
+    // (generated lazily by the caller from `d3_seeds`), and core triples
+    let mut d3_seeds = vec![];
     if thorough {
-        let d2_bool = dedup(d2_bool);
-        let mut out = vec![];
-        for b in &d2_bool {
-            bool_contexts(b, false, &mut out);
-        }
-        counts.insert("depth3_contexts".into(), serde_json::json!(out.len()));
-        all.extend(out);
+        d3_seeds = dedup(d2_bool);
+        counts.insert("depth3_seed_predicates".into(), serde_json::json!(d3_seeds.len()));
+        counts.insert("depth3_contexts_per_seed".into(), serde_json::json!(d3_contexts(&lb(true)).len()));
         let small: Vec<E> = core_bools(false).into_iter().take(34).collect();
         let mut triples = vec![];
         for x in &small {
@@ -746,15 +780,22 @@ pub fn space(thorough: bool) -> Space {
         all.extend(triples);
     }
     let mut exprs = dedup(all);
-    exprs.sort_by_key(|e| e.nodes());
+    exprs.sort_by_cached_key(|e| e.nodes());
     let description = serde_json::json!({
         "columns": "a,b:Int64 n:Int64 NOT NULL c:Int32 d:Float64 s:Utf8 f,g:Boolean p:Boolean NOT NULL t:Date32",
         "literals": "Int64 {NULL,0,1,2,-1} Int32 {1,NULL} Float64 {1.5,0.0,NULL} Utf8 {NULL,'','a','a%','1'} Boolean {NULL,true,false} Date {2024-01-01} + untyped NULL",
         "max_depth": if thorough { 3 } else { 2 },
         "family_sizes": counts,
-        "total_distinct_trees": exprs.len(),
+        "materialised_distinct_trees": exprs.len(),
     });
-    Space { exprs, description }
+    Space { exprs, d3_seeds, description }
+}
+
+/// The depth-3 trees built around one depth-2 predicate.
+pub fn d3_contexts(b: &E) -> Vec<E> {
+    let mut out = vec![];
+    bool_contexts(b, false, &mut out);
+    out
 }
 
 /// cheap syntactic test: is the root a boolean-valued construct
